@@ -49,6 +49,30 @@ func c03Surplus(r interface{ Intn(int) int }, seq int) (string, string) {
 	}
 }
 
+// c03WaitClosed gives the read loop its turn: wait (bounded) until the client has closed the i-th
+// scripted connection. The unsolicited-bytes check of readLoop races with the caller's next
+// request in the real code (as in net/http); the model takes the loop's Peek to come first.
+func c03WaitClosed(nw *c03Net, i int) {
+	deadline := time.Now().Add(1500 * time.Millisecond)
+	for time.Now().Before(deadline) {
+		nw.mu.Lock()
+		var c *c03Conn
+		if i < len(nw.conns) {
+			c = nw.conns[i]
+		}
+		nw.mu.Unlock()
+		if c != nil {
+			c.mu.Lock()
+			closed := c.closed
+			c.mu.Unlock()
+			if closed {
+				return
+			}
+		}
+		time.Sleep(2 * time.Millisecond)
+	}
+}
+
 func TestVerif_C03_h1over(t *testing.T) {
 	s := verifh.New(t, "C03", "h1over",
 		"generated complete keep-alive responses (Content-Length, chunked with trailers, HEAD with length, 204/304, 1xx in front) followed IN THE SAME SEGMENT by unsolicited bytes "+
@@ -90,21 +114,8 @@ func TestVerif_C03_h1over(t *testing.T) {
 		// Peek to come before the caller's next request; here that is made so instead of hoped for: wait
 		// until the client has closed the connection the unsolicited bytes arrived on (bounded).
 		c03Between = func() {
-			if surplus == "" {
-				return
-			}
-			deadline := time.Now().Add(1500 * time.Millisecond)
-			for time.Now().Before(deadline) {
-				nw.mu.Lock()
-				c := nw.conns[0]
-				nw.mu.Unlock()
-				c.mu.Lock()
-				closed := c.closed
-				c.mu.Unlock()
-				if closed {
-					return
-				}
-				time.Sleep(2 * time.Millisecond)
+			if surplus != "" {
+				c03WaitClosed(nw, 0)
 			}
 		}
 		obs := c03RunClient(nw.dial, func() int { nw.mu.Lock(); defer nw.mu.Unlock(); return nw.dials }, m.head, stream, verifh.Pick(r, []int{1, 5, 64, 4096}), false, nw.closeAll, cc)
